@@ -1,3 +1,568 @@
 package main
 
-func checkCmd(args []string) int { return 2 }
+import (
+	"bufio"
+	"encoding/json"
+	"flag"
+	"fmt"
+	"os"
+	"os/exec"
+	"path/filepath"
+	"regexp"
+	"sort"
+	"strconv"
+	"strings"
+	"time"
+
+	"bhsverif/symex"
+)
+
+// HRun is one harness entry point with its per-tier argument vectors.
+type HRun struct {
+	Pkg      string // package path suffix below the module
+	Func     string
+	Quick    [][]int64
+	Thorough [][]int64
+	Labels   []string // assertion labels that must be evaluated at least once
+	Unwind   int
+	Solver   string
+}
+
+type CheckDef struct {
+	ID          string
+	Level       string
+	Runs        []HRun
+	Bounds      []string
+	Outside     []string
+	Stubs       []string
+	TrustedBase []string
+}
+
+type KnownFinding struct {
+	Property string `json:"property"`
+	ID       string `json:"id"`
+	Assert   string `json:"assert"`
+	Class    string `json:"class"`
+	What     string `json:"what"`
+	Fixed    bool   `json:"fixed,omitempty"`
+	Commit   string `json:"commit,omitempty"`
+}
+
+type replayEntry struct {
+	Harness string              `json:"harness"`
+	Label   string              `json:"label"`
+	Args    []int64             `json:"args"`
+	Values  []symex.NondetValue `json:"values"`
+	Pkg     string              `json:"pkg"`
+	Known   string              `json:"known,omitempty"`
+	Obs     []symex.Observation `json:"observations,omitempty"`
+	Panic   string              `json:"panic,omitempty"`
+}
+
+type replaySet struct {
+	Entries []replayEntry `json:"entries"`
+}
+
+const verifDir = "/verif"
+
+func loadKnown() []KnownFinding {
+	var ks []KnownFinding
+	b, err := os.ReadFile(filepath.Join(verifDir, "known_findings.json"))
+	if err != nil {
+		return nil
+	}
+	if err := json.Unmarshal(b, &ks); err != nil {
+		fmt.Fprintln(os.Stderr, "known_findings.json:", err)
+		os.Exit(2)
+	}
+	return ks
+}
+
+func checkCmd(args []string) int {
+	fs := flag.NewFlagSet("check", flag.ExitOnError)
+	repo := fs.String("repo", "/repo", "repository working tree")
+	harness := fs.String("harness", filepath.Join(verifDir, "harness"), "harness dir")
+	tier := fs.String("tier", os.Getenv("VERIF_TIER"), "quick|thorough")
+	workers := fs.Int("j", 14, "workers")
+	noEvidence := fs.Bool("no-evidence", false, "do not write evidence (scratch trials)")
+	only := fs.String("only", "", "run only the harness function with this name")
+	fs.Parse(args[1:])
+	id := args[0]
+	if *tier == "" {
+		*tier = "quick"
+	}
+	seed, _ := strconv.ParseInt(os.Getenv("VERIF_SEED"), 10, 64)
+	def, ok := checks()[id]
+	if !ok {
+		fmt.Fprintf(os.Stderr, "no check for %s\n", id)
+		return 2
+	}
+	t0 := time.Now()
+	P, err := symex.Load(*repo, *harness)
+	if err != nil {
+		fmt.Printf("INCONCLUSIVE property=%s reason=load-failed\n%v\n", id, err)
+		writeFailEvidence(id, *tier, seed, def, "load failed: "+err.Error(), time.Since(t0), *noEvidence)
+		return 2
+	}
+	loadS := time.Since(t0).Seconds()
+	known := loadKnown()
+	for _, k := range known {
+		if k.Property == id && !k.Fixed {
+			P.Known[k.Assert] = append(P.Known[k.Assert], k.Class)
+		}
+	}
+	if *tier == "thorough" {
+		P.TimeoutMs = 120000
+	}
+
+	var reps []*symex.Report
+	var inconclusive []string
+	var entries []replayEntry   // counterexamples
+	var witnesses []replayEntry // path witnesses for native validation
+	for _, r := range def.Runs {
+		if *only != "" && r.Func != *only {
+			continue
+		}
+		argsets := r.Quick
+		if *tier == "thorough" && r.Thorough != nil {
+			argsets = r.Thorough
+		}
+		if argsets == nil {
+			argsets = [][]int64{nil}
+		}
+		fn := P.Func(symex.RepoModule+"/"+r.Pkg, r.Func)
+		if fn == nil {
+			inconclusive = append(inconclusive, "missing harness "+r.Pkg+"."+r.Func)
+			continue
+		}
+		for _, as := range argsets {
+			P.Unwind = 64
+			if r.Unwind > 0 {
+				P.Unwind = r.Unwind
+			}
+			P.Solver = "z3"
+			if r.Solver != "" {
+				P.Solver = r.Solver
+			}
+			nw := 6
+			if *tier == "thorough" {
+				nw = 24
+			}
+			ex := &symex.Explorer{P: P, Name: fmt.Sprintf("%s.%s%v", filepath.Base(r.Pkg), r.Func, as), Entry: fn, IntArgs: as, Workers: *workers, Witness: nw}
+			rep := ex.Run()
+			reps = append(reps, rep)
+			fmt.Printf("  %s: paths=%d completed=%d queries=%d solver=%.1fs wall=%.1fs\n", rep.Harness, rep.Paths, rep.Completed, rep.Queries, float64(rep.SolverNs)/1e9, float64(rep.WallNs)/1e9)
+			for u, n := range rep.Unsupported {
+				inconclusive = append(inconclusive, fmt.Sprintf("%s: UNSUPPORTED x%d: %s", rep.Harness, n, u))
+			}
+			for _, e := range rep.SolverErrors {
+				inconclusive = append(inconclusive, rep.Harness+": solver error: "+e)
+			}
+			for l, st := range rep.Labels {
+				if st.Unknown > 0 {
+					inconclusive = append(inconclusive, fmt.Sprintf("%s: solver unknown on %s x%d", rep.Harness, l, st.Unknown))
+				}
+			}
+			if rep.FeasUnknown > 0 {
+				inconclusive = append(inconclusive, fmt.Sprintf("%s: %d paths with unknown feasibility checks", rep.Harness, rep.FeasUnknown))
+			}
+			if rep.Completed == 0 {
+				inconclusive = append(inconclusive, rep.Harness+": VACUOUS no path completed")
+			}
+			for _, l := range r.Labels {
+				if st := rep.Labels[l]; st == nil || st.Reached == 0 {
+					inconclusive = append(inconclusive, fmt.Sprintf("%s: VACUOUS label %s never evaluated", rep.Harness, l))
+				}
+			}
+			seen := map[string]int{}
+			for _, v := range rep.Violations {
+				k := v.Label + "|" + v.Known
+				if seen[k] >= 2 {
+					continue
+				}
+				seen[k]++
+				entries = append(entries, replayEntry{Harness: r.Func, Pkg: r.Pkg, Label: v.Label, Args: as, Values: v.Values, Known: v.Known, Panic: v.PanicMsg})
+			}
+			for _, w := range rep.Witnesses {
+				witnesses = append(witnesses, replayEntry{Harness: r.Func, Pkg: r.Pkg, Args: as, Values: w.Values, Obs: w.Observations})
+			}
+		}
+	}
+
+	// ---- native validation of path witnesses (encoder validation) and replay of counterexamples
+	validated, mismatches := 0, []string{}
+	if len(witnesses) > 0 {
+		res, err := runNative(*repo, *harness, witnesses, filepath.Join(verifDir, "work", id+"-witness.json"))
+		if err != nil {
+			inconclusive = append(inconclusive, "native witness run failed: "+err.Error())
+		} else {
+			for i, w := range witnesses {
+				r := res[i]
+				okk := r.status == "CLEAN"
+				for _, o := range w.Obs {
+					if got, has := r.obs[o.Name]; !has || got != o.Val {
+						okk = false
+						r.detail += fmt.Sprintf(" obs %s: native=%q symbolic=%q", o.Name, got, o.Val)
+					}
+				}
+				if okk {
+					validated++
+				} else {
+					mismatches = append(mismatches, fmt.Sprintf("%s%v: native %s %s values=%v", w.Harness, w.Args, r.status, r.detail, w.Values))
+				}
+			}
+		}
+	}
+	for _, m := range mismatches {
+		inconclusive = append(inconclusive, "ENCODING-MISMATCH (witness): "+m)
+	}
+
+	violations := 0
+	var outLines []string
+	knownSeen := map[string]bool{}
+	if len(entries) > 0 {
+		os.MkdirAll(filepath.Join(verifDir, "replays"), 0o755)
+		res, err := runNative(*repo, *harness, entries, filepath.Join(verifDir, "work", id+"-cex.json"))
+		if err != nil {
+			inconclusive = append(inconclusive, "native replay run failed: "+err.Error())
+		} else {
+			n := 0
+			for i, e := range entries {
+				r := res[i]
+				reproduced := false
+				if e.Label == "no-panic" {
+					reproduced = r.status == "PANIC"
+				} else {
+					reproduced = (r.status == "VIOLATED" || r.status == "PANIC") && strings.Contains(r.detail, e.Label)
+				}
+				if !reproduced {
+					inconclusive = append(inconclusive, fmt.Sprintf("ENCODING-MISMATCH: counterexample for %s in %s%v did not reproduce natively (%s %s) values=%v", e.Label, e.Harness, e.Args, r.status, r.detail, e.Values))
+					continue
+				}
+				if e.Known != "" {
+					for _, k := range known {
+						if k.Property == id && k.Class == e.Known && k.Assert == e.Label && !knownSeen[k.ID] {
+							knownSeen[k.ID] = true
+							outLines = append(outLines, fmt.Sprintf("KNOWN-FINDING: property=%s %s", id, k.What))
+						}
+					}
+					continue
+				}
+				n++
+				path := filepath.Join(verifDir, "replays", fmt.Sprintf("%s-%d.json", id, n))
+				b, _ := json.MarshalIndent(replaySet{Entries: []replayEntry{e}}, "", " ")
+				os.WriteFile(path, b, 0o644)
+				violations++
+				outLines = append(outLines, fmt.Sprintf("VIOLATION property=%s replay=%s", id, path))
+				outLines = append(outLines, fmt.Sprintf("  assertion %s in %s%v: native %s %s", e.Label, e.Harness, e.Args, r.status, r.detail))
+			}
+		}
+	}
+
+	wall := time.Since(t0)
+	if !*noEvidence {
+		writeEvidence(id, *tier, seed, def, reps, validated, len(witnesses), violations, inconclusive, knownSeen, wall, loadS)
+	}
+	for _, l := range outLines {
+		fmt.Println(l)
+	}
+	if violations > 0 {
+		return 1
+	}
+	if len(inconclusive) > 0 {
+		sort.Strings(inconclusive)
+		for i, s := range inconclusive {
+			if i > 20 {
+				fmt.Printf("  ... %d more\n", len(inconclusive)-i)
+				break
+			}
+			fmt.Printf("INCONCLUSIVE property=%s reason=%s\n", id, s)
+		}
+		return 2
+	}
+	tot, proved := 0, 0
+	for _, r := range reps {
+		for l, st := range r.Labels {
+			if strings.HasPrefix(l, "reach:") {
+				continue
+			}
+			tot += st.Reached
+			proved += st.Proved
+		}
+	}
+	fmt.Printf("OK property=%s tier=%s obligations=%d discharged=%d witnesses_validated=%d/%d wall=%.1fs\n", id, *tier, tot, proved, validated, len(witnesses), wall.Seconds())
+	return 0
+}
+
+type nativeResult struct {
+	status string
+	detail string
+	obs    map[string]string
+}
+
+var resRe = regexp.MustCompile(`^REPLAY-RESULT (\d+) (\S+) ?(.*)$`)
+var obsRe = regexp.MustCompile(`^REPLAY-OBS (\d+) ([^=]+)=(.*)$`)
+
+// runNative compiles the harness packages natively (go test -overlay) and runs the entries.
+func runNative(repo, harnessDir string, entries []replayEntry, file string) ([]nativeResult, error) {
+	os.MkdirAll(filepath.Dir(file), 0o755)
+	out := make([]nativeResult, len(entries))
+	for i := range out {
+		out[i] = nativeResult{status: "NOTRUN", obs: map[string]string{}}
+	}
+	byPkg := map[string][]int{}
+	for i, e := range entries {
+		byPkg[e.Pkg] = append(byPkg[e.Pkg], i)
+	}
+	ovFile, err := writeNativeOverlay(repo, harnessDir, filepath.Dir(file))
+	if err != nil {
+		return nil, err
+	}
+	for pkg, idx := range byPkg {
+		var set replaySet
+		for _, i := range idx {
+			set.Entries = append(set.Entries, entries[i])
+		}
+		b, _ := json.Marshal(set)
+		f := strings.TrimSuffix(file, ".json") + "-" + strings.ReplaceAll(pkg, "/", "_") + ".json"
+		if err := os.WriteFile(f, b, 0o644); err != nil {
+			return nil, err
+		}
+		bin := strings.TrimSuffix(f, ".json") + ".test"
+		bcmd := exec.Command("go", "test", "-c", "-vet=off", "-overlay", ovFile, "-o", bin, "./"+pkg)
+		bcmd.Dir = repo
+		bcmd.Env = append(os.Environ(), "GOFLAGS=-mod=mod", "GOPROXY=off")
+		if bo, berr := bcmd.CombinedOutput(); berr != nil {
+			tail := string(bo)
+			if len(tail) > 3000 {
+				tail = tail[len(tail)-3000:]
+			}
+			return out, fmt.Errorf("native build of %s failed: %v\n%s", pkg, berr, tail)
+		}
+		cmd := exec.Command(bin, "-test.run", "^TestZZReplay$", "-test.v", "-test.timeout", "20m")
+		cmd.Dir = repo
+		if st, serr := os.Stat(filepath.Join(repo, pkg)); serr == nil && st.IsDir() {
+			cmd.Dir = filepath.Join(repo, pkg)
+		}
+		cmd.Env = append(os.Environ(), "VH_REPLAY="+f)
+		ob, err := cmd.CombinedOutput()
+		os.Remove(bin)
+		sc := bufio.NewScanner(strings.NewReader(string(ob)))
+		sc.Buffer(make([]byte, 1<<20), 1<<24)
+		got := 0
+		for sc.Scan() {
+			line := sc.Text()
+			if m := resRe.FindStringSubmatch(line); m != nil {
+				k, _ := strconv.Atoi(m[1])
+				if k < len(idx) {
+					out[idx[k]].status = m[2]
+					out[idx[k]].detail = m[3]
+					got++
+				}
+			} else if m := obsRe.FindStringSubmatch(line); m != nil {
+				k, _ := strconv.Atoi(m[1])
+				if k < len(idx) {
+					out[idx[k]].obs[m[2]] = m[3]
+				}
+			}
+		}
+		if got < len(idx) {
+			tail := string(ob)
+			if len(tail) > 3000 {
+				tail = tail[len(tail)-3000:]
+			}
+			return out, fmt.Errorf("native run of %s produced %d/%d results (err=%v):\n%s", pkg, got, len(idx), err, tail)
+		}
+	}
+	return out, nil
+}
+
+// writeNativeOverlay maps every harness file (incl. native-only ones) plus a generated
+// replay test per harness package into the repository tree.
+func writeNativeOverlay(repo, harnessDir, workDir string) (string, error) {
+	repl := map[string]string{}
+	pkgDirs := map[string]string{} // virtual dir -> package name
+	err := filepath.Walk(harnessDir, func(p string, info os.FileInfo, err error) error {
+		if err != nil || info.IsDir() || !strings.HasSuffix(p, ".go") {
+			return err
+		}
+		rel, _ := filepath.Rel(harnessDir, p)
+		var virt string
+		if strings.HasPrefix(rel, "_inpkg/") {
+			sub := strings.TrimPrefix(rel, "_inpkg/")
+			dir, file := filepath.Split(sub)
+			virt = filepath.Join(repo, dir, "zz_"+file)
+		} else {
+			virt = filepath.Join(repo, "internal/zzverif", rel)
+		}
+		repl[virt] = p
+		if filepath.Base(p) == "registry.go" {
+			b, _ := os.ReadFile(p)
+			m := regexp.MustCompile(`(?m)^package (\w+)`).FindSubmatch(b)
+			if m != nil {
+				pkgDirs[filepath.Dir(virt)] = string(m[1])
+			}
+		}
+		return nil
+	})
+	if err != nil {
+		return "", err
+	}
+	for dir, name := range pkgDirs {
+		src := fmt.Sprintf("package %s\n\nimport (\n\t\"testing\"\n\n\t\"%s/internal/zzverif/vh\"\n)\n\nfunc TestZZReplay(t *testing.T) { vh.RunReplay(Registry) }\n", name, symex.RepoModule)
+		real := filepath.Join(workDir, "replaytest_"+strings.ReplaceAll(strings.TrimPrefix(dir, repo+"/"), "/", "_")+".go")
+		if err := os.WriteFile(real, []byte(src), 0o644); err != nil {
+			return "", err
+		}
+		repl[filepath.Join(dir, "zz_replay_test.go")] = real
+	}
+	b, _ := json.MarshalIndent(map[string]interface{}{"Replace": repl}, "", " ")
+	f := filepath.Join(workDir, "overlay.json")
+	return f, os.WriteFile(f, b, 0o644)
+}
+
+// ---------------------------------------------------------------- evidence
+
+func writeFailEvidence(id, tier string, seed int64, def CheckDef, why string, wall time.Duration, skip bool) {
+	if skip {
+		return
+	}
+	ev := map[string]interface{}{
+		"property_id": id, "tier": tier, "seed": seed, "level": "other",
+		"coverage":   map[string]interface{}{"explanation": "check could not run: " + why, "evaluations": 0, "distinct_nontrivial": 0},
+		"wall_s":     wall.Seconds(),
+		"violations": 0,
+	}
+	b, _ := json.MarshalIndent(ev, "", " ")
+	os.MkdirAll(filepath.Join(verifDir, "evidence"), 0o755)
+	os.WriteFile(filepath.Join(verifDir, "evidence", id+".json"), b, 0o644)
+}
+
+func solverVersions() map[string]string {
+	out := map[string]string{}
+	for _, s := range [][]string{{"z3", "--version"}, {"z3-new", "--version"}, {"cvc5", "--version"}} {
+		b, err := exec.Command(s[0], s[1:]...).Output()
+		if err == nil {
+			out[s[0]] = strings.SplitN(strings.TrimSpace(string(b)), "\n", 2)[0]
+		}
+	}
+	return out
+}
+
+func writeEvidence(id, tier string, seed int64, def CheckDef, reps []*symex.Report, validated, nwit, violations int, inconclusive []string, knownSeen map[string]bool, wall time.Duration, loadS float64) {
+	paths, decisions, queries := 0, 0, 0
+	var solverNs int64
+	obligations, discharged, trivial := 0, 0, 0
+	funcs := map[string]bool{}
+	sqls := map[string]bool{}
+	assumptions := map[string]bool{}
+	var samples []interface{}
+	perHarness := []interface{}{}
+	for _, r := range reps {
+		paths += r.Paths
+		decisions += r.Decisions
+		queries += r.Queries
+		solverNs += r.SolverNs
+		labels := map[string]interface{}{}
+		for l, st := range r.Labels {
+			labels[l] = map[string]int{"reached": st.Reached, "proved": st.Proved, "violated": st.Violated, "unknown": st.Unknown, "by_simplifier": st.Trivial}
+			if strings.HasPrefix(l, "reach:") {
+				continue
+			}
+			obligations += st.Reached
+			discharged += st.Proved
+			trivial += st.Trivial
+		}
+		for f := range r.Funcs {
+			if strings.Contains(f, "zzverif/vh") {
+				continue
+			}
+			funcs[f] = true
+		}
+		for s := range r.SQL {
+			sqls[s] = true
+		}
+		for a := range r.Assumptions {
+			assumptions[a] = true
+		}
+		for i, s := range r.Samples {
+			if i < 2 {
+				samples = append(samples, r.Harness+": "+s)
+			}
+		}
+		for i, w := range r.Witnesses {
+			if i < 1 {
+				samples = append(samples, map[string]interface{}{"harness": r.Harness, "path_witness_inputs": w.Values, "observations": w.Observations, "obligations_on_path": w.Labels})
+			}
+		}
+		perHarness = append(perHarness, map[string]interface{}{"harness": r.Harness, "paths": r.Paths, "completed": r.Completed, "ended_infeasible": r.Ended,
+			"decisions": r.Decisions, "queries": r.Queries, "solver_s": float64(r.SolverNs) / 1e9, "wall_s": float64(r.WallNs) / 1e9, "labels": labels, "max_path_condition": r.MaxPC})
+	}
+	var fl []string
+	for f := range funcs {
+		fl = append(fl, f)
+	}
+	sort.Strings(fl)
+	var sl []string
+	for s := range sqls {
+		sl = append(sl, s)
+	}
+	sort.Strings(sl)
+	as := append([]string{}, def.Stubs...)
+	for a := range assumptions {
+		as = append(as, a)
+	}
+	sort.Strings(as)
+	if paths == 0 {
+		paths = 1
+	}
+	if decisions == 0 {
+		decisions = 1
+	}
+	if len(samples) == 0 {
+		samples = append(samples, "no path completed")
+	}
+	cov := map[string]interface{}{
+		"states":                        paths,
+		"transitions":                   decisions,
+		"traces_validated_against_impl": validated,
+		"path_witnesses_attempted":      nwit,
+		"samples":                       samples,
+		"obligations":                   obligations,
+		"discharged":                    discharged,
+		"discharged_by_simplifier":      trivial,
+		"checker_cmd":                   fmt.Sprintf("bin/bhsverif check %s --tier %s", id, tier),
+		"trusted_base":                  def.TrustedBase,
+		"functions_encoded":             fl,
+		"sql_statements_encoded":        sl,
+		"bounds":                        def.Bounds,
+		"outside_bound":                 def.Outside,
+		"queries":                       queries,
+		"solver_s":                      float64(solverNs) / 1e9,
+		"load_s":                        loadS,
+		"solver_versions":               solverVersions(),
+		"per_harness":                   perHarness,
+		"inconclusive":                  inconclusive,
+		"explanation":                   "states = feasible paths of the real code explored symbolically (SSA of /repo's working tree); transitions = branch decisions; obligations = path x assertion queries; discharged = unsat verdicts (by_simplifier: folded to true before reaching the solver); traces_validated_against_impl = solver models of completed paths replayed against the natively compiled code with identical observations",
+	}
+	var kf []string
+	for k := range knownSeen {
+		kf = append(kf, k)
+	}
+	sort.Strings(kf)
+	cov["known_findings_seen"] = kf
+	level := def.Level
+	if level == "proof" && (discharged != obligations || len(inconclusive) > 0) {
+		level = "model_checking"
+	}
+	ev := map[string]interface{}{
+		"property_id": id, "tier": tier, "seed": seed, "level": level,
+		"coverage":    cov,
+		"assumptions": as,
+		"wall_s":      wall.Seconds(),
+		"violations":  violations,
+	}
+	b, _ := json.MarshalIndent(ev, "", " ")
+	os.MkdirAll(filepath.Join(verifDir, "evidence"), 0o755)
+	os.WriteFile(filepath.Join(verifDir, "evidence", id+".json"), b, 0o644)
+}
